@@ -83,7 +83,8 @@ def plan_coq(D, n):
 
 C31_DEF = ("Definition c31 (b p : plan) : list Z :=\n"
            "  [if wf_plan [] p then 1 else 0; if schema_eq (schema_of p) (schema_of b) then 1 else 0;\n"
-           "   if schema_eq_unqualified (schema_of p) (schema_of b) then 1 else 0; if consistent_plan p then 1 else 0].")
+           "   if schema_eq_unqualified (schema_of p) (schema_of b) then 1 else 0; if consistent_plan p then 1 else 0;\n"
+           "   if wf_plan_q [] p then 1 else 0].")
 
 def coq_eval_plans(I, items, tag, shard=10):
     """items: list of (bound plan json, [plan json...]); returns per item the list of c31 results"""
@@ -104,7 +105,7 @@ def coq_eval_plans(I, items, tag, shard=10):
         if len(v) != len(shards[k]):
             raise RuntimeError("parse mismatch")
         return v
-    with ThreadPoolExecutor(max_workers=16) as ex:
+    with ThreadPoolExecutor(max_workers=6) as ex:
         parts = list(ex.map(one, range(len(shards))))
     return [x for p in parts for x in p]
 
@@ -240,6 +241,7 @@ def run(ctx):
     cases_l, eq, ok, impl = [], [], [], []
     qual_only = 0
     stale = {}
+    stats["wf_q_outputs_checked"] = {}
     for c in verdict_cases:
         if c.get("bad"):
             cases_l.append(c); eq.append(True); ok.append(False); impl.append(c["error"]); continue
@@ -260,12 +262,28 @@ def run(ctx):
         stats["exec_errors_also_unoptimised"] = stats.get("exec_errors_also_unoptimised", 0) + (1 if exec_failed and not noopt_ok else 0)
         qual_only += sum(1 for l in c["labels"] if same_unq[l] and not same[l])
         bad_wf = [l for l in c["labels"] if not wf[l]]
+        # qualifier-respecting well-formedness, RELATIVE to the bound plan: if every reference of the bound plan denotes a
+        # column of the relation it names (wf_plan_q), every rule's output must too
+        wfq = {l: r[4] == 1 for l, r in zip(c["labels"], c["coq"])}
+        premise = wfq.get("bound", False)
+        stats["bound_wf_q"] = stats.get("bound_wf_q", 0) + (1 if premise else 0)
+        stats["bound_not_wf_q"] = stats.get("bound_not_wf_q", 0) + (0 if premise else 1)
+        bad_wfq = []
+        if premise:
+            for l in c["labels"]:
+                if l == "bound":
+                    continue
+                rn = l.split(":")[-1]
+                stats["wf_q_outputs_checked"][rn] = stats["wf_q_outputs_checked"].get(rn, 0) + 1
+                if not wfq[l]:
+                    bad_wfq.append(l)
         bad_schema = [l for l in c["labels"] if not same_unq[l]]
-        s_ok = not bad_wf and not bad_schema and not internal and not exec_internal
+        s_ok = not bad_wf and not bad_wfq and not bad_schema and not internal and not exec_internal
         # model vs implementation: the bound plan of a valid statement is well-formed by the Coq definition, and the
         # production plan is well-formed  <->  the engine runs it without an error of its own making
         m_eq = wf.get("bound", False) and (wf.get("prod", True) == (not exec_internal))
-        cases_l.append({"sql": c["sql"], "kind": c["kind"], "not_wf": bad_wf, "schema_changed": bad_schema,
+        cases_l.append({"sql": c["sql"], "kind": c["kind"], "not_wf": bad_wf, "not_wf_q_although_bound_is": bad_wfq,
+                        "schema_changed": bad_schema,
                         "optimizer_errors": internal, "exec": c["exec_msg"], "exec_noopt": c.get("exec_noopt")})
         eq.append(m_eq); ok.append(s_ok); impl.append({"wf": wf, "schema_eq": same})
     stats["plans_with_stale_declared_schema"] = stale
